@@ -337,6 +337,32 @@ func normPanicMsg(s string) string {
 // runLibrary drives the public API once: create, validate, serialise.
 // The simulated disk and environment must already be installed.
 func runLibrary(root string, rootContent []byte, o Opts) (res Result) {
+	return runLibraryWith(root, rootContent, o.options(), o.Entry)
+}
+
+// executeWith is execute for option values built by the caller (so that one option value
+// can be shared between several JApi values).
+func executeWith(p *Project, oo []core.Option, entry string, env Env, seed uint64) (Result, *simrt.Disk) {
+	simrt.Active = true
+	simrt.Reset(seed)
+	simrt.SetMapPolicy(env.MapPolicy)
+	simrt.SetPoolPolicy(env.PoolPolicy, env.PoolDrop)
+	simrt.SetClock(1_700_000_000+env.ClockStart, env.RandSeed)
+	d := mountProject(p, env, nil)
+	simrt.FS = d
+	total := uint64(p.totalBytes() + 200)
+	simrt.SetBudget(softFactor*total, hardFactor*total)
+	rc := p.content(p.absRoot())
+	rootContent := make([]byte, len(rc), len(rc)+env.Slack)
+	copy(rootContent, rc)
+	res := runLibraryWith(p.Root, rootContent, oo, entry)
+	simrt.SetBudget(^uint64(0), ^uint64(0))
+	eh, en := simrt.EventHash()
+	traceFold(eh, en, hash64(res.digest()))
+	return res, d
+}
+
+func runLibraryWith(root string, rootContent []byte, options []core.Option, entry string) (res Result) {
 	stage := "create"
 	defer func() {
 		if r := recover(); r != nil {
@@ -356,11 +382,11 @@ func runLibrary(root string, rootContent []byte, o Opts) (res Result) {
 		}
 	}()
 	var j kit.JApi
-	if o.Entry == "file" {
-		j = kit.NewJApiFromFile(schemafs.NewFile(root, rootContent), o.options()...)
+	if entry == "file" {
+		j = kit.NewJApiFromFile(schemafs.NewFile(root, rootContent), options...)
 	} else {
 		var err error
-		j, err = kit.NewJapi(root, o.options()...)
+		j, err = kit.NewJapi(root, options...)
 		if err != nil {
 			res.NewErr = err.Error()
 			return res
